@@ -89,6 +89,43 @@ theorem lfs_spec (l : List T3) : ∀ (p : Nat) (acc : List E), Chain p l →
             · rw [ind_pos _ _ _ hx2] at this; rw [ind_pos _ _ _ (by omega)]; omega
             · rw [ind_neg _ _ _ hx2] at this; rw [ind_neg _ _ _ (by omega)]; omega
 
+/-- where the holes that `Layout::from` adds lie: each starts at the origin or at the end of a region, and ends where a region starts -/
+theorem lfs_holes (l : List T3) : ∀ (p : Nat) (acc H : List E), Chain p l → layoutFromSorted l p acc = some (acc ++ H) →
+    ∀ e ∈ H, (e.1 = p ∨ ∃ t ∈ l, e.1 = t.1 + t.2.2) ∧ ∃ t ∈ l, e.1 + e.2 = t.1 := by
+  induction l with
+  | nil =>
+    intro p acc H _ h e he
+    simp only [layoutFromSorted, Option.some.injEq] at h
+    have : H = [] := by simpa using h.symm
+    rw [this] at he; cases he
+  | cons t r ih =>
+    intro p acc H hc h e he
+    obtain ⟨st, i, res⟩ := t
+    obtain ⟨h1, h2, h3⟩ := hc
+    simp only at h1 h2 h3
+    simp only [layoutFromSorted] at h
+    by_cases hp : p = st
+    · rw [if_pos hp] at h
+      obtain ⟨a, b⟩ := ih (st + res) acc H h3 h e he
+      refine ⟨?_, ?_⟩
+      · rcases a with a | ⟨t', ht', a⟩
+        · right; exact ⟨(st, i, res), List.mem_cons_self .., a⟩
+        · right; exact ⟨t', List.mem_cons_of_mem _ ht', a⟩
+      · obtain ⟨t', ht', b⟩ := b; exact ⟨t', List.mem_cons_of_mem _ ht', b⟩
+    · rw [if_neg hp, if_neg (by omega)] at h
+      obtain ⟨H', e1, _, _⟩ := lfs_spec r (st + res) (acc ++ [(p, st - p)]) h3
+      rw [e1, Option.some.injEq, List.append_assoc, List.append_cancel_left_eq] at h
+      rw [← h] at he
+      simp only [List.singleton_append, List.mem_cons] at he
+      rcases he with rfl | he
+      · exact ⟨Or.inl rfl, ⟨(st, i, res), List.mem_cons_self .., by simp only; omega⟩⟩
+      · obtain ⟨a, b⟩ := ih (st + res) (acc ++ [(p, st - p)]) H' h3 e1 e he
+        refine ⟨?_, ?_⟩
+        · rcases a with a | ⟨t', ht', a⟩
+          · right; exact ⟨(st, i, res), List.mem_cons_self .., a⟩
+          · right; exact ⟨t', List.mem_cons_of_mem _ ht', a⟩
+        · obtain ⟨t', ht', b⟩ := b; exact ⟨t', List.mem_cons_of_mem _ ht', b⟩
+
 /-- sorted by start, pairwise apart, non-empty ⇒ a chain -/
 theorem chain_of_sorted (l : List T3) (p : Nat) (hs : l.Pairwise (fun a b => a.1 < b.1))
     (ha : l.Pairwise (fun a b => a.1 + a.2.2 ≤ b.1 ∨ b.1 + b.2.2 ≤ a.1)) (hp : ∀ t ∈ l, 0 < t.2.2) (hlo : ∀ t ∈ l, p ≤ t.1) :
@@ -352,9 +389,11 @@ the layout invariant again: the regions read back are the live ones, the holes a
 theorem reopen_layout (s : Db) (hf : FInv s) (hr : RInv s) (ha : Al s)
     (hw : ∀ idx sl, s.slot? idx = some sl → sl.st ≠ .needsWrite) :
     ∃ H, layoutFromSorted (triplesUpTo (slotsRead s.rfile) (slotsRead s.rfile).length) 0 [] = some H ∧
-      ∀ (f : Db), f.slots = slotsRead s.rfile →
+      (∀ (f : Db), f.slots = slotsRead s.rfile →
         f.regions = (triplesUpTo (slotsRead s.rfile) (slotsRead s.rfile).length).map (fun t => (t.1, t.2.1)) →
-        f.holes = H → f.reserved = [] → f.pending = [] → LInv f ∧ Acc f := by
+        f.holes = H → f.reserved = [] → f.pending = [] → LInv f ∧ Acc f) ∧
+      (∀ e ∈ H, (e.1 = 0 ∨ ∃ j sl, s.slot? j = some sl ∧ e.1 = sl.md.start + sl.md.reserved) ∧
+        ∃ j sl, s.slot? j = some sl ∧ e.1 + e.2 = sl.md.start) := by
   have hL := slotsRead_get s hf hr ha hw
   generalize slotsRead s.rfile = L at hL
   have hlive : ∀ i sl', (L[i]?).join = some sl' → ∃ sl, s.slot? i = some sl ∧ sl'.md = sl.md := by
@@ -403,7 +442,19 @@ theorem reopen_layout (s : Db) (hf : FInv s) (hr : RInv s) (ha : Al s)
   have hchain := chain_of_sorted T 0 t1 hapart hposT (fun _ _ => Nat.zero_le _)
   obtain ⟨H, e1, e2, e3⟩ := lfs_spec T 0 [] hchain
   rw [List.nil_append] at e1
-  refine ⟨H, e1, fun f f1 f2 f3 f4 f5 => ?_⟩
+  have hholes : ∀ e ∈ H, (e.1 = 0 ∨ ∃ j sl, s.slot? j = some sl ∧ e.1 = sl.md.start + sl.md.reserved) ∧
+      ∃ j sl, s.slot? j = some sl ∧ e.1 + e.2 = sl.md.start := by
+    intro e he
+    obtain ⟨a, b⟩ := lfs_holes T 0 [] H hchain (by rw [List.nil_append]; exact e1) e he
+    refine ⟨?_, ?_⟩
+    · rcases a with a | ⟨t, ht, a⟩
+      · exact Or.inl a
+      · obtain ⟨sl, s1, s2⟩ := hmem t ht
+        right; exact ⟨t.2.1, sl, s1, by rw [a, s2]⟩
+    · obtain ⟨t, ht, b⟩ := b
+      obtain ⟨sl, s1, s2⟩ := hmem t ht
+      exact ⟨t.2.1, sl, s1, by rw [b, s2]⟩
+  refine ⟨H, e1, fun f f1 f2 f3 f4 f5 => ?_, hholes⟩
   -- extents of the slots read back = extents of the live slots of s
   have hexts : exts f.slots = exts s.slots := by
     rw [f1]
@@ -518,7 +569,7 @@ theorem reopen_ok (s : Db) (n : Nat) (hf : FInv s) (hr : RInv s) (ha : Al s)
   simp only []
   generalize hs0 : (if s.fileLen < n then ({ s with fileLen := n, mem := s.mem.grow n, log := s.log ++ [.setLen .data n, .sync .data] } : Db) else s) = s0
   have hrf : s0.rfile = s.rfile := by rw [← hs0]; split <;> rfl
-  obtain ⟨H, e1, e2⟩ := reopen_layout s hf hr ha hw
+  obtain ⟨H, e1, e2, _⟩ := reopen_layout s hf hr ha hw
   rw [← hrf] at e1 e2
   rw [e1]
   simp only
